@@ -137,6 +137,10 @@ def r2_dynamic_rows(ctx):
            'classes nested in classes are not entered (matches the one class level of the static visitor)' if not rec else 'the dynamic collector recurses into nested classes, the static one does not', anchor=DYN)
     # unwrapping
     attrs_read = {x.attr for x in ast.walk(f.node) if isinstance(x, ast.Attribute) and isinstance(x.ctx, ast.Load)}
+    # ... also when the attribute is named by a string: getattr(x, 'fget') here, operator.attrgetter('fget') here or in a module-level table
+    for x in list(ast.walk(f.node)) + [y for st in f.module.tree.body if isinstance(st, (ast.Assign, ast.AnnAssign)) for y in ast.walk(st)]:
+        if isinstance(x, ast.Call) and ((isinstance(x.func, ast.Name) and x.func.id in ('getattr', 'attrgetter')) or (isinstance(x.func, ast.Attribute) and x.func.attr == 'attrgetter')):
+            attrs_read |= {a.value for a in x.args if isinstance(a, ast.Constant) and isinstance(a.value, str)}
     ok = 'fget' in attrs_read and not ({'fset', 'fdel'} & attrs_read)
     rep.ob('C16.R2', ctx.loc(f, f.node), 'property -> fget only', ok,
            'only the getter of a property is collected (static side: setter / deleter exits)' if ok else
